@@ -88,7 +88,9 @@ for extra_cards in list(range(0, 32)) + [rng.randint(0, 40) for _ in range(R.n(4
         want_counts = [bpf] * (nf - 1) + [N - bpf * (nf - 1)]
         R.check('files/blocks-per-file-split', c, counts == want_counts, counts, want_counts)
         allb = [b for p in parsed for b in p]
-        spb = be.samples_per_block
+        # samples per block as the file itself implies it (not the backend's own attribute): BLOCSIZE / (OBSNCHAN * 2*npol*nbits/8)
+        spb = int(allb[0][0]['BLOCSIZE']) * 8 // (int(allb[0][0]['OBSNCHAN']) * 2 * npol * nbits)
+        R.check('blocks/backend-samples_per_block-agrees-with-the-header', c, be.samples_per_block == spb, be.samples_per_block, spb)
         R.check('blocks/PKTIDX-advances-by-samples-per-block', c, [int(b[0]['PKTIDX']) for b in allb] == [1000 + g * spb for g in range(N)], [int(b[0]['PKTIDX']) for b in allb][:4])
         h0 = allb[0][0]
         own = int(h0['NBITS']) == nbits and int(h0['BLOCSIZE']) == be.block_size and int(h0['OBSNCHAN']) == be.num_chans * nant and int(h0['NPOL']) == npol \
